@@ -64,6 +64,8 @@ type Case struct {
 	Detail interface{} `json:"detail,omitempty"`
 	// tags for the coverage histogram
 	Tags []string `json:"tags,omitempty"`
+	// known-finding triggers that hold of this input by construction
+	Known []string `json:"known,omitempty"`
 }
 
 var out = json.NewEncoder(os.Stdout)
